@@ -362,7 +362,16 @@ def main(argv):
             else:
                 runs.append(res)
     import evidence
-    return evidence.decide_and_report(prop, tier, seed, runs, undecided, load_known(), index, time.time() - t0)
+    extra = {}
+    if index['properties'][prop].get('kani'):
+        import kani
+        try:
+            extra['kani'] = kani.run(REPO, [prop])
+            if extra['kani'].get('rc') not in (0, None) and not any(h['status'] == 'FAILURE' for h in extra['kani']['harnesses']):
+                undecided.append('kani did not complete: ' + extra['kani'].get('tail', '')[-600:])
+        except AnchorLost as e:
+            undecided.append('K1: anchor lost: %s' % e)
+    return evidence.decide_and_report(prop, tier, seed, runs, undecided, load_known(), index, time.time() - t0, extra)
 
 
 if __name__ == '__main__':
